@@ -210,6 +210,24 @@ theorem C04_done_context_call_registers :
                         s.bc.closed = false ∧ s.slot = none ∧ s.fatalLog = [])) = some true := by
   constructor <;> decide
 
+/-- "…and the link stays healthy" rests on a second source fact: the stub panics (→ recover → `setErr`) only on
+    failures of the link, never on an OUTCOME of the call (`panicSitesCanonical`, regenerated from the source).  As
+    a behaviour of the model: with that ONE fact flipped, a call whose context ends while it is in flight (cancel or
+    deadline — the waiter hands over the context's error) still returns that error, but on the way it stores it as
+    the link's fatal error and closes the pending-call table under its sibling: `Link` returns the CALL's error. -/
+theorem C04_panicking_on_a_call_outcome_ends_the_link :
+    (run skPanicsOnOutcome init
+      [.linkCheck,
+       .callStart 0 5 2 0, .callReceive 0, .callSpawn 0, .callWrite 0, .waiterRecvCall 0,
+       .callStart 1 6 2 0, .callReceive 1, .callSpawn 1, .callWrite 1, .waiterRecvCall 1,
+       .ctxCancel 6,
+       .waiterGetsCtx 1, .waiterSend 1, .waiterFree 1, .callTakeRes 1 false, .callRecover 1 eCallCtx,
+       .setErrStore 1, .setErrClose 1, .linkWake, .linkReturn]).map
+      (fun s => decide ((s.calls 1).outcome = .failed eCallCtx ∧ s.link = .returned (some eCallCtx) ∧
+                        s.bc.closed = true ∧ (s.calls 0).pc = .written ∧ s.linkCtxDone = false)) = some true ∧
+    Skeleton.current.panicSitesCanonical = true := by
+  constructor <;> decide
+
 /-- The same guarantees hold for a closure invocation made by a handler: it IS a call of M2 (the proxy
     goes through the very stub the theorems above are about) whose context is the one the handler passed
     to the callable — the proxy keeps it in a variable of its own, assigned from the invocation's first
@@ -224,6 +242,7 @@ theorem C04_closure_invocations_are_cancellable :
 end Panrpc.Ep
 
 #print axioms Panrpc.Ep.C04_closure_invocations_are_cancellable
+#print axioms Panrpc.Ep.C04_panicking_on_a_call_outcome_ends_the_link
 
 #print axioms Panrpc.Ep.C04_only_ctx_error
 #print axioms Panrpc.Ep.C04_cancel_returns
